@@ -3,6 +3,7 @@ import Mouette.Generated.C12Prim
 import Mouette.Generated.C12W
 import Mouette.Props.C12R
 import Mouette.Props.C12T
+import Mouette.Lemmas.FloatOpsR
 /-!
 # C12 (round 4) - the angle utilities of `mouette/utils/maths.py`, as the SOURCE defines them now
 
@@ -19,69 +20,80 @@ are proved (`principalAngle_bridge`, `angleDiff_bridge`, `rootArgs_bridge`), so 
 models the harness compares with (`principalAngle_turn_bridge`, `angleDiff_turn_bridge`, `rootArgs_turn_bridge`).
 -/
 namespace Mouette.Props.C12M
-open Mouette.Angles Mouette.Turns Real
+open Mouette Mouette.Angles Mouette.Turns Real
 open Mouette.Generated
 
-theorem principalAngle_bridge (a : ℝ) : C12Maths.principalAngle π pmod a = Angles.principalAngle a := by
-  simp only [C12Maths.principalAngle, Angles.principalAngle, gt_iff_lt]
+/-- under `F.Exact` (the ONE assumption about floats) the body of `principal_angle` is the real specification -/
+theorem principalAngle_bridge (F : FloatOps ℝ) (hF : F.Exact) (a : ℝ) : C12Maths.principalAngle F a = Angles.principalAngle a := by
+  have h2 : (0 : ℝ) < 2 * π := by positivity
+  simp only [C12Maths.principalAngle, Angles.principalAngle, gt_iff_lt, hF.pi_eq, hF.fmod_eq _ _ h2]
 
-theorem angleDiff_bridge (a b : ℝ) : C12Maths.angleDiff π pmod a b = Angles.angleDiff a b := rfl
+theorem angleDiff_bridge (F : FloatOps ℝ) (hF : F.Exact) (a b : ℝ) : C12Maths.angleDiff F a b = Angles.angleDiff a b := by
+  have h2 : (0 : ℝ) < 2 * π := by positivity
+  simp only [C12Maths.angleDiff, Angles.angleDiff, hF.pi_eq, hF.fmod_eq _ _ h2]
 
 /-- **angle reduction (source)**: the body of `principal_angle` returns a value congruent to its input modulo 2π, in [−π, π] -/
-theorem principalAngle_source_spec (a : ℝ) :
-    (∃ k : ℤ, C12Maths.principalAngle π pmod a = a - 2 * π * k) ∧
-    -π ≤ C12Maths.principalAngle π pmod a ∧ C12Maths.principalAngle π pmod a ≤ π := by
-  rw [principalAngle_bridge]; exact Mouette.Props.C12R.principalAngle_spec a
+theorem principalAngle_source_spec (F : FloatOps ℝ) (hF : F.Exact) (a : ℝ) :
+    (∃ k : ℤ, C12Maths.principalAngle F a = a - 2 * π * k) ∧
+    -π ≤ C12Maths.principalAngle F a ∧ C12Maths.principalAngle F a ≤ π := by
+  rw [principalAngle_bridge F hF]; exact Mouette.Props.C12R.principalAngle_spec a
 
 /-- **angle difference (source)**: the body of `angle_diff` returns a value congruent to `a − b` modulo 2π, in [−π, π] -/
-theorem angleDiff_source_spec (a b : ℝ) :
-    (∃ k : ℤ, C12Maths.angleDiff π pmod a b = (a - b) - 2 * π * k) ∧
-    -π ≤ C12Maths.angleDiff π pmod a b ∧ C12Maths.angleDiff π pmod a b ≤ π := by
-  rw [angleDiff_bridge]; exact Mouette.Props.C12R.angleDiff_spec a b
+theorem angleDiff_source_spec (F : FloatOps ℝ) (hF : F.Exact) (a b : ℝ) :
+    (∃ k : ℤ, C12Maths.angleDiff F a b = (a - b) - 2 * π * k) ∧
+    -π ≤ C12Maths.angleDiff F a b ∧ C12Maths.angleDiff F a b ≤ π := by
+  rw [angleDiff_bridge F hF]; exact Mouette.Props.C12R.angleDiff_spec a b
 
 /-- the arguments `roots` hands to `cmath.rect` are `(arg c + 2kπ)/n`, `k < n` -/
-theorem rootArgs_bridge (t : ℝ) (n : ℕ) :
-    C12Maths.rootArgs π t n = (List.range n).map (fun (k : ℕ) => (t + 2 * k * π) / n) := rfl
+theorem rootArgs_bridge (F : FloatOps ℝ) (hF : F.Exact) (t : ℝ) (n : ℕ) :
+    C12Maths.rootArgs F t n = (List.range n).map (fun (k : ℕ) => (t + 2 * k * π) / n) := by
+  simp only [C12Maths.rootArgs, hF.pi_eq]
 
 /-- **n-th roots (source)**: every value the body of `roots(c, n)` (normalised) builds, raised to `n`, gives back `c/|c|` -/
-theorem roots_source_pow (c : ℂ) (hc : c ≠ 0) (n : ℕ) (hn : 0 < n) :
-    (C12Maths.rootArgs π (Complex.arg c) n).length = n ∧
-    ∀ θ ∈ C12Maths.rootArgs π (Complex.arg c) n, (rect1 θ) ^ n = c / (‖c‖ : ℂ) := by
-  rw [rootArgs_bridge]
+theorem roots_source_pow (F : FloatOps ℝ) (hF : F.Exact) (c : ℂ) (hc : c ≠ 0) (n : ℕ) (hn : 0 < n) :
+    (C12Maths.rootArgs F (Complex.arg c) n).length = n ∧
+    ∀ θ ∈ C12Maths.rootArgs F (Complex.arg c) n, (rect1 θ) ^ n = c / (‖c‖ : ℂ) := by
+  rw [rootArgs_bridge F hF]
   refine ⟨by simp, ?_⟩
   intro θ hθ
   obtain ⟨k, _, rfl⟩ := List.mem_map.mp hθ
   exact Mouette.Props.C12R.roots_pow c hc n hn k
 
+/-- the hypothesis `F.Exact` is satisfiable: the real operations themselves -/
+theorem float_assumptions_consistent : ∃ F : FloatOps ℝ, F.Exact ∧ F.TrigLaws := ⟨realOps, realOps_exact, exact_trigLaws realOps_exact⟩
+
 /-- Python's `%` for a positive modulus, over ℚ -/
 def fmodQ (x m : ℚ) : ℚ := x - m * (Rat.floor (x / m) : ℚ)
+
+/-- the float operations in units of TURNS over ℚ (π = 1/2 turn; cos / sin are not used by the angle utilities) -/
+def turnOps : FloatOps ℚ := ⟨1 / 2, fmodQ, fun _ => 0, fun _ => 0⟩
 
 theorem fmodQ_one (x : ℚ) : fmodQ x (2 * (1 / 2)) = fractTurn x := by
   unfold fmodQ fractTurn
   norm_num
 
 /-- in units of turns (π = 1/2 turn) the body of `principal_angle` is the executable model `principalTurn` -/
-theorem principalAngle_turn_bridge (t : ℚ) : C12Maths.principalAngle (1 / 2 : ℚ) fmodQ t = principalTurn t := by
-  simp only [C12Maths.principalAngle, principalTurn, fmodQ_one]
+theorem principalAngle_turn_bridge (t : ℚ) : C12Maths.principalAngle turnOps t = principalTurn t := by
+  simp only [C12Maths.principalAngle, principalTurn, turnOps, fmodQ_one]
   norm_num
 
-theorem angleDiff_turn_bridge (ta tb : ℚ) : C12Maths.angleDiff (1 / 2 : ℚ) fmodQ ta tb = angleDiffTurn ta tb := by
-  simp only [C12Maths.angleDiff, angleDiffTurn, fmodQ_one]
+theorem angleDiff_turn_bridge (ta tb : ℚ) : C12Maths.angleDiff turnOps ta tb = angleDiffTurn ta tb := by
+  simp only [C12Maths.angleDiff, angleDiffTurn, turnOps, fmodQ_one]
 
-theorem rootArgs_turn_bridge (t : ℚ) (n : ℕ) : C12Maths.rootArgs (1 / 2 : ℚ) t n = rootTurns t n := by
-  simp only [C12Maths.rootArgs, rootTurns]
+theorem rootArgs_turn_bridge (t : ℚ) (n : ℕ) : C12Maths.rootArgs turnOps t n = rootTurns t n := by
+  simp only [C12Maths.rootArgs, rootTurns, turnOps]
   congr 1
   funext k
   congr 1
   ring
 
 -- non-vacuity: the extracted bodies run over ℚ in turns: 7/4 turns ≡ −1/4 turn; 1/8 − 7/8 ≡ 1/4
-example : C12Maths.principalAngle (1 / 2 : ℚ) fmodQ (7 / 4) = -(1 / 4) := by
+example : C12Maths.principalAngle turnOps (7 / 4) = -(1 / 4) := by
   rw [principalAngle_turn_bridge]
   have h : Rat.floor (7 / 4 : ℚ) = 1 := by decide +kernel
   norm_num [principalTurn, fractTurn, h]
-example : (C12Maths.rootArgs (1 / 2 : ℚ) (1 / 3) 2) = [1 / 6, 2 / 3] := by
-  norm_num [C12Maths.rootArgs, List.range, List.range.loop]
+example : (C12Maths.rootArgs turnOps (1 / 3) 2) = [1 / 6, 2 / 3] := by
+  norm_num [C12Maths.rootArgs, turnOps, List.range, List.range.loop]
 
 /-! ### closed-form primitives of `geometry.py` (bodies extracted into `Generated/C12Prim.lean`)
 
